@@ -95,4 +95,59 @@ Definition err_render (bs : list N) (index : N) : list N :=
   render_position (convert_pest_error bs index)
   ++ [124; flagc (kf_range_end_in_char bs index); flagc (kf_range_start_in_char bs index)].
 
+(* ---------- the repaired functions (design.d/C15-fix-error-range-char-boundary.patch) ----------
+   scan_token_end steps over the whole UTF-8 sequence of a 'single character'; scan_token_start backs up to the
+   first byte of the character `pos` lies in.  Used by the oracle as the deviation switch of the two findings:
+   once the witnesses no longer fail, the implementation is compared with this model instead. *)
+Definition scan_token_end_fixed (bs : list N) (start : N) : N :=
+  match skipnN start bs with
+  | [] => start
+  | (first :: t) as rest =>
+    if tok_first first then start + lenN (take_while tok_char rest)
+    else start + 1 + lenN (take_while is_cont t)
+  end.
+
+Definition scan_token_start_fixed (bs : list N) (pos : N) : N :=
+  match skipnN pos bs with
+  | [] => pos
+  | ch :: _ =>
+    if tok_char ch then pos - lenN (take_while tok_char (rev (firstnN pos bs)))
+    else if is_cont ch then
+      (* while start > 0 && is_cont(bytes[start]) { start -= 1 } *)
+      let k := lenN (take_while is_cont (rev (firstnN pos bs))) in
+      if k <? pos then pos - (k + 1) else 0
+    else pos
+  end.
+
+Definition compute_error_range_fixed (index : N) (bs : list N) : N * N :=
+  let fwd :=
+    match skipnN index bs with
+    | [] => None
+    | ch :: _ =>
+      if negb (skipped ch) then
+        let e := scan_token_end_fixed bs index in
+        if index <? e then Some (index, e) else None
+      else None
+    end in
+  match fwd with
+  | Some r => r
+  | None =>
+    match drop_while skipped (rev (firstnN index bs)) with
+    | [] => (index, index)
+    | (_ :: _) as back =>
+      let pos := lenN back - 1 in
+      (scan_token_start_fixed bs pos, pos + 1)
+    end
+  end.
+
+Definition convert_pest_error_fixed (bs : list N) (index : N) : position :=
+  let r := compute_error_range_fixed index bs in
+  let lc := if fst r <? index then linecol_loop (firstnN (fst r) bs) 1 1
+            else pest_line_col bs index in
+  mkPos (fst lc) (snd lc) r (fst r).
+
+(* F: "index line column a b" of the repaired model *)
+Definition err_render_fixed (bs : list N) (index : N) : list N :=
+  render_position (convert_pest_error_fixed bs index).
+
 Definition all_ascii (bs : list N) : bool := forallb (fun b => b <? 128) bs.
